@@ -98,3 +98,23 @@ inline RunRes spawn(const std::string &bin, const std::vector<std::string> &args
   return r;
 }
 
+
+// read a file named by a path RELATIVE to `dir` (as the spawned program saw it): an absolute path built from
+// dir + relative path could exceed PATH_MAX although the relative one does not
+inline std::string read_rel(const std::string &dir, const std::string &rel)
+{
+  std::string out;
+  int dfd = open(dir.c_str(), O_RDONLY | O_DIRECTORY);
+  if (dfd < 0)
+    return out;
+  int fd = openat(dfd, rel.c_str(), O_RDONLY);
+  close(dfd);
+  if (fd < 0)
+    return out;
+  char buf[65536];
+  ssize_t n;
+  while ((n = read(fd, buf, sizeof buf)) > 0)
+    out.append(buf, (size_t)n);
+  close(fd);
+  return out;
+}
